@@ -76,6 +76,25 @@ CHECKS = {
         note="Byte equality of files across runs and 'union valid => joined == union' are declined.",
         tech="static analysis: constant propagation of the mode through enumerated paths (R-PATH), term equality of mode outputs (R-TERM), exactly-one-consume (R-PATH)",
         ref="DESIGN.md section 4 C08"),
+    "C09": dict(
+        text="Static effect rules on everything reachable from the worker and from Program.run: the parallel map is an "
+             "order-preserving p_tqdm entry point and no unordered construct, nondeterministic API or set construction is "
+             "on the output path; attributes of long-lived objects written in worker-reachable code (today exactly "
+             "AlignerEngine.iteration) and the fields they taint (AlignedPair.source) are read only by __repr__/__hash__/"
+             "copy constructors; --cpus reaches only num_cpus=; main-file rows pass AlignmentResults.create; shared "
+             "OpticalMaps are frozen and never mutated in worker-reachable code. Positive fixtures keep the zero-count rules honest.",
+        note="One knowingly conservative rule: any read-back of per-process state is reported even if it is a pure memo. Byte "
+             "identity of real runs (pickling, float summation order in numpy/scipy) is declined.",
+        tech="static analysis: effect summaries over the call graph, field-sensitive taint of worker-persistent state, who-may-call (R-EFFECT)",
+        ref="DESIGN.md section 4 C09"),
+    "C10": dict(
+        text="Static rules: no cross-query state (the C09.3/C09.6 analyses plus no run-time write to module/class-level "
+             "objects on the run path); the second pass and both pair parsers look maps up by the matching molecule id, "
+             "never by position; readReferences/readQueries receive the matching file and id list, the reader filters and "
+             "groups on one column with the filter before grouping; label rows are sorted while reading.",
+        note="Order-insensitivity of tie-breaking among exactly equal scores and equality of restricted vs full runs are declined.",
+        tech="static analysis: effect/taint analysis (R-EFFECT), selection-predicate normal forms (R-TERM), argument/role lint (R-ROLE)",
+        ref="DESIGN.md section 4 C10"),
     "C18": dict(
         text="Static format agreement between XmapReader.writeAlignments and readAlignments/pair parsers: column tables, "
              "separators, comment/header prefixes, header=False, the '(ref,qry)' Alignment grammar with the reader's strip/split "
